@@ -27,7 +27,7 @@ LEVEL = 'exploration'
 SHARDS = {'quick': 16, 'thorough': 16}
 FLOOR = {'quick': 1000, 'thorough': 8000}
 REQUIRED_MONITORS = {'M-out': 3000, 'spellings-compared': 2000, 'foreign-checked': 2000, 'data-option-compared': 500,
-                     'prefix-rebinding-compared': 500}
+                     'prefix-rebinding-compared': 500, 'same-tag-two-bindings-compared': 300}
 RULE = ('programs = element trees (depth<=3) with 0..3 statements per element from {tal: content, replace, condition, '
         'define, omit-tag, attributes, repeat, on-error, switch, comment; i18n: translate, domain, attributes; meta: '
         'interpolation; metal: define-macro, define-slot} and 0..3 foreign attributes from {class, data-foo, data-x-y, f:a '
@@ -321,6 +321,45 @@ def layer_prefix_rebinding(ctx, n):
                           % (base_src, base, src, out), {'src': src, 'base_src': base_src, 'cfg': {}})
 
 
+
+def layer_same_tag_text_under_two_bindings(ctx, n):
+    """The very same tag text stands under different bindings of its prefix in one document (a foreign namespace here,
+    a template namespace there): each occurrence is read under the binding in force where it stands."""
+    rng = ctx.rng
+    for case in range(n):
+        ns = rng.choice(['tal', 'i18n', 'metal'])
+        stmt, val, body = {'tal': rng.choice([('content', "'X'", 'X'), ('omit-tag', '', None), ('replace', "'R'", 'R')]),
+                           'i18n': ('domain', 'd', 'old'), 'metal': ('define-macro', 'mm%d' % case, 'old')}[ns]
+        tag = rng.choice(['<item t:%s="%s">old</item>', '<item t:%s="%s"\n   class="c">old</item>'])
+        tagtext = tag % (stmt, val)
+        secs = [rng.choice(['foreign', 'template']) for _ in range(rng.randint(2, 4))]
+        if len(set(secs)) == 1:
+            secs[0] = 'foreign' if secs[0] == 'template' else 'template'
+        src = '<root>'
+        want = '<root>'
+        for i, kind in enumerate(secs):
+            if kind == 'foreign':
+                src += '<a id="s%d" xmlns:t="urn:example:tracking">%s</a>' % (i, tagtext)
+                want += '<a id="s%d" xmlns:t="urn:example:tracking">%s</a>' % (i, tagtext)
+            else:
+                src += '<b id="s%d" xmlns:t="%s">%s</b>' % (i, NS[ns], tagtext)
+                plain = tagtext.replace(' t:%s="%s"' % (stmt, val), '')
+                if stmt == 'content':
+                    plain = plain.replace('old', 'X')
+                elif stmt == 'replace':
+                    plain = 'R'
+                elif stmt == 'omit-tag':
+                    plain = 'old'
+                want += '<b id="s%d">%s</b>' % (i, plain)
+        src += '</root>'
+        want += '</root>'
+        got = render(src)
+        ctx.mon('same-tag-two-bindings-compared')
+        ctx.case(key=('two-bindings', ns, stmt, tuple(secs), '\n' in tag), nontrivial=True)
+        if got != want:
+            ctx.violation('tag-read-under-the-binding-of-another-occurrence', 'template %r\n  rendered %r\n  expected %r' % (src, got, want), {'src': src, 'cfg': {}})
+
+
 def layer_load_chain_options(ctx, n):
     """Pages (file templates) of one directory that pull in a shared template through load:, created with and
     without enable_data_attributes, in every order and all kept alive: each page's own option decides how the shared
@@ -368,6 +407,7 @@ def layer_load_chain_options(ctx, n):
 def run(ctx):
     monitors.install(ctx, tokalg=False)
     layer_load_chain_options(ctx, 10 if ctx.quick else 150)
+    layer_same_tag_text_under_two_bindings(ctx, 30 if ctx.quick else 400)
     rng = ctx.rng
     n = 250 if ctx.quick else 4000
     for case in range(n):
